@@ -36,17 +36,17 @@ Inductive method := MContiguous | MIndexed.
 
 Inductive case :=
 (* RaggedContiguousArray(data, shape=(nrows, w, tdims...), count) [idx] *)
-| KContig (nrows w : nat) (tdims : list nat) (counts : list nat) (data : list cell)
+| KContig (ty : ity) (nrows w : nat) (tdims : list nat) (counts : list Z) (data : list cell)
           (idx : list aindex) (o : obs)
 (* RaggedIndexedArray(data, shape=(nrows, w, tdims...), index) [idx] *)
-| KIndexed (nrows w : nat) (tdims : list nat) (index : list Z) (data : list cell)
+| KIndexed (ty : ity) (nrows w : nat) (tdims : list nat) (index : list Z) (data : list cell)
            (idx : list aindex) (o : obs)
 (* RaggedIndexedContiguousArray(data, shape=(nfeat, nprof, w, tdims...), count, index) [idx] *)
-| KIC (nfeat nprof w : nat) (tdims : list nat) (counts : list nat) (index : list Z)
+| KIC (ty : ity) (nfeat nprof w : nat) (tdims : list nat) (counts : list Z) (index : list Z)
       (data : list cell) (idx : list aindex) (o : obs)
 (* GatheredArray(data, shape = ldims ++ dims ++ tdims, list); one block of
    samples per position of the leading dimensions *)
-| KGathered (ldims dims tdims : list nat) (lst : list Z) (blocks : list (list cell))
+| KGathered (ty : ity) (ldims dims tdims : list nat) (lst : list Z) (blocks : list (list cell))
             (idx : list aindex) (o : obs)
 (* Field.compress('contiguous'|'indexed') of a 2-d field: rows, optional
    auxiliary coordinate the counts are derived from, a second construct
@@ -57,30 +57,78 @@ Inductive case :=
              (o_var : list Z) (o_cdata o_cother : list val) (o_array o_other : obs)
 (* Field.compress('indexed_contiguous') of a 3-d field *)
 | KCompress3 (nprof w : nat) (rows : list (list (list val))) (aux : option (list (list (list val))))
-             (o_count o_index : list Z) (o_cdata : list val) (o_array o_aux : obs).
+             (o_count o_index : list Z) (o_cdata : list val) (o_array o_aux : obs)
+(* d1.equals(d2, ignore_compression=True / False) for two compressed arrays (a and b are
+   array cases; their idx and o fields are not used) *)
+| KPair (a b : case) (o_default o_strict : bool).
 
-Definition zlist_eqb := list_eqb Z.eqb.
-Definition vlist_eqb := list_eqb val_eqb.
 
 Definition flatv2 (u : list (list val)) : list val := concat u.
 Definition flatv3 (u : list (list (list val))) : list val := concat (concat u).
 
+Definition zlist_eqb := list_eqb Z.eqb.
+Definition vlist_eqb := list_eqb val_eqb.
+
+(* the count / index / list variable holds its values in the integer type ty:
+   what is read back is [wrap ty v] *)
 Definition run_case (c : case) : obs :=
   match c with
-  | KContig nrows w tdims counts data idx _ =>
+  | KContig ty nrows w tdims counts data idx _ =>
       finish flat2 (nrows :: w :: tdims) idx
-        (contiguous_decode (missc (prod tdims)) nrows w counts data)
-  | KIndexed nrows w tdims index data idx _ =>
+        (contiguous_decode_ty (missc (prod tdims)) ty nrows w counts data)
+  | KIndexed ty nrows w tdims index data idx _ =>
       finish flat2 (nrows :: w :: tdims) idx
-        (indexed_decode (missc (prod tdims)) nrows w index data)
-  | KIC nfeat nprof w tdims counts index data idx _ =>
+        (indexed_decode (missc (prod tdims)) nrows w (map (wrap ty) index) data)
+  | KIC ty nfeat nprof w tdims counts index data idx _ =>
       finish flat3 (nfeat :: nprof :: w :: tdims) idx
-        (ic_decode (missc (prod tdims)) nfeat nprof w counts index data)
-  | KGathered ldims dims tdims lst blocks idx _ =>
+        (ic_decode (missc (prod tdims)) nfeat nprof w (count_tolist ty counts) (map (wrap ty) index) data)
+  | KGathered ty ldims dims tdims lst blocks idx _ =>
       finish flat2 (ldims ++ dims ++ tdims) idx
-        (gathered_decode (missc (prod tdims)) dims lst blocks)
+        (gathered_decode (missc (prod tdims)) dims (map (wrap ty) lst) blocks)
   | _ => OErr OtherErr
   end.
+
+(* ---- pairs: Data.equals ---- *)
+Definition whole (c : case) : case :=
+  match c with
+  | KContig ty n w t cs d _ o => KContig ty n w t cs d [] o
+  | KIndexed ty n w t ix d _ o => KIndexed ty n w t ix d [] o
+  | KIC ty nf np w t cs ix d _ o => KIC ty nf np w t cs ix d [] o
+  | KGathered ty l ds t ls bs _ o => KGathered ty l ds t ls bs [] o
+  | _ => c
+  end.
+
+Definition case_shape (c : case) : list nat :=
+  match c with
+  | KContig _ n w t _ _ _ _ | KIndexed _ n w t _ _ _ _ => n :: w :: t
+  | KIC _ nf np w t _ _ _ _ _ => nf :: np :: w :: t
+  | KGathered _ l ds t _ _ _ _ => l ++ ds ++ t
+  | _ => []
+  end.
+
+(* compression type (as a number) and compressed array (shape, flat values) *)
+Definition case_ctype (c : case) : nat :=
+  match c with KContig _ _ _ _ _ _ _ _ => 1 | KIndexed _ _ _ _ _ _ _ _ => 2
+             | KIC _ _ _ _ _ _ _ _ _ _ => 3 | KGathered _ _ _ _ _ _ _ _ => 4 | _ => 0 end%nat.
+
+Definition case_carr (c : case) : list nat * list val :=
+  match c with
+  | KContig _ _ _ t _ d _ _ | KIndexed _ _ _ t _ d _ _ | KIC _ _ _ _ t _ _ d _ _ =>
+      (length d :: t, concat d)
+  | KGathered _ l _ t ls bs _ _ => (l ++ length (hd [] bs) :: t, concat (concat bs))
+  | _ => ([], [])
+  end.
+
+Definition nats_eqb := list_eqb Nat.eqb.
+
+Definition view_eqb (a b : list nat * obs) : bool :=
+  nats_eqb (fst a) (fst b) &&
+  match snd a, snd b with OOk x, OOk y => vlist_eqb x y | _, _ => false end.
+
+Definition pair_equals (ignore_compression : bool) (a b : case) : bool :=
+  data_equals (fun c => (case_shape c, run_case (whole c))) case_ctype case_carr
+              view_eqb Nat.eqb (fun x y => nats_eqb (fst x) (fst y) && vlist_eqb (snd x) (snd y))
+              ignore_compression (Compressed a) (Compressed b).
 
 (* the constructs spanning the field's axes: the auxiliary coordinate (if any)
    and the second construct *)
@@ -127,8 +175,9 @@ Definition check_compress3 (nprof w : nat) (rows : list (list (list val)))
 
 Definition case_obs (c : case) : obs :=
   match c with
-  | KContig _ _ _ _ _ _ o | KIndexed _ _ _ _ _ _ o | KIC _ _ _ _ _ _ _ _ o
-  | KGathered _ _ _ _ _ _ o => o
+  | KContig _ _ _ _ _ _ _ o | KIndexed _ _ _ _ _ _ _ o | KIC _ _ _ _ _ _ _ _ _ o
+  | KGathered _ _ _ _ _ _ _ o => o
+  | KPair _ _ _ _ => OErr OtherErr
   | KCompress2 _ _ _ _ _ _ _ _ o _ => o
   | KCompress3 _ _ _ _ _ _ _ o _ => o
   end.
@@ -139,5 +188,7 @@ Definition check_case (c : case) : bool :=
       check_compress2 m w rows aux other o_var o_cdata o_cother o_array o_other
   | KCompress3 nprof w rows aux o_count o_index o_cdata o_array o_aux =>
       check_compress3 nprof w rows aux o_count o_index o_cdata o_array o_aux
+  | KPair a b o_default o_strict =>
+      Bool.eqb (pair_equals true a b) o_default && Bool.eqb (pair_equals false a b) o_strict
   | _ => obs_eqb (run_case c) (case_obs c)
   end.
